@@ -3,6 +3,7 @@ from .. import tables as T
 from ..rules import influence as R1
 from ..rules import verdict as R3
 from ..rules import everyiter as R1D
+from ..rules import fsbind as RFS
 
 CONFIGS_QUICK = ["default"]
 CONFIGS_THOROUGH = ["default", "nopar", "r1cs"]
@@ -14,7 +15,10 @@ EXPLANATION = (
     "statement part (values, point, commitment fields), every proof field, every verifier-key field the relation "
     "mentions, and every challenge squeezed from the transcript. R1L: no value that a verifier loop computes per "
     "element (a looked-up shift power, say) is overwritten unused and then used after the loop, where only the last "
-    "element's value would take part in the relation. Plus R3: every sub-verdict (Result<bool>/bool of "
+    "element's value would take part in the relation. R1m / R1v (shared with C04): the degree bound is matched for "
+    "equality against the key's table of enforced bounds and its presence is tied to the presence of the shifted "
+    "commitment. RFS (IPA): every group element of the proof that the relation multiplies by a hash-derived "
+    "challenge is an input of that challenge's derivation. Plus R3: every sub-verdict (Result<bool>/bool of "
     "a nested verifier or of Merkle path verification) is consumed. A missing path proves the component is dead in "
     "the decision, i.e. replacing it leaves acceptance unchanged while the reference relation changes.")
 RULE = ("instances = verifier anchors x {values, point, commitment fields, proof fields, key fields, key accessor "
@@ -49,6 +53,14 @@ def run(rep, ctx, tier):
         for name, comp in comps:
             ok, detail, where, n = R1.component(ctx, a, comp, cut_sponge=True)
             rep.add("R1", "%s:%s" % (a.key, name), ok, detail, where or a.body.span, nontrivial=n > 0)
+        if db and a.method in ("check", "batch_check"):
+            from .c04 import bound_table_rules
+            bound_table_rules(rep, ctx, a, db)
+        if a.info.get("adt") == "ipa_pc::InnerProductArgPC" and a.method in ("check", "batch_check"):
+            # "with the same challenge derivation from the transcript": the prover messages the relation randomises
+            # are inputs of that derivation
+            RFS.run(rep, ctx, a, [(e[0], e[1], e[2] if len(e) > 2 else None) for e in a.info["proof"]
+                                  if e[1] in ("l_vec", "r_vec", "hiding_comm")], "RFS")
         # challenges
         f = ctx.facts
         n_sq = 0
